@@ -154,7 +154,18 @@ impl Run {
     }
 
     /// Start a run: build a fresh world, instantiate the token from cfg. Emits the reset event.
-    pub fn start(cfg: &Value, run_no: u64, out: &mut Out) -> Option<Run> {
+    pub fn start(cfg0: &Value, run_no: u64, out: &mut Out) -> Option<Run> {
+        // a fixture run: the configuration the recorded state was produced with, plus the index of the state
+        let fx = cfg0.get("fixture").and_then(|x| x.as_u64()).and_then(|k| fixture("cw20", k as usize).map(|f| (k, f)));
+        let merged;
+        let cfg: &Value = if let Some((k, f)) = &fx {
+            let mut c = f["cfg"].clone();
+            c["fixture"] = json!(k);
+            merged = c;
+            &merged
+        } else {
+            cfg0
+        };
         let log2 = cfg.get("scale").and_then(|x| x.as_u64()).unwrap_or(0);
         let sc = Scale::new(1u128 << log2);
         let mut w = World::new();
@@ -246,8 +257,25 @@ impl Run {
                 .wasm_sudo(t.clone(), &RawOp::RawSet { key: Binary::from(b"contract_info".to_vec()), value: Binary::from(serde_json::to_vec(&ver).unwrap()) })
                 .unwrap();
         }
+        let mut anom0: Vec<String> = vec![];
+        if let Some((_, f)) = &fx {
+            if names_of(&run.w) != f["names"] {
+                eprintln!("fixtures/cw20.ndjson was recorded with other addresses: regenerate it (tools/mkfixtures.sh)");
+                std::process::exit(2);
+            }
+            let t = run.tok();
+            load_raw(&mut run.w, &t, &f["raw"]);
+            run.w.set_clock(n(&f["now"], "h"), n(&f["now"], "t"));
+            cfgv["expect"] = f["obs"].clone();
+        }
         let obs = run.observe();
-        let anom = run.sc.take_anomalies();
+        if let Some((_, f)) = &fx {
+            if obs != f["obs"] {
+                anom0.push("the state read from storage written by the release differs from what the release reported".into());
+            }
+        }
+        let mut anom = run.sc.take_anomalies();
+        anom.extend(anom0);
         out.emit(&json!({"act":"reset","sys":"cw20","run":run_no,"cfg":cfgv,"ok":true,"panic":false,"err":"",
             "now":run.w.now(),"out":[],"anom":anom,"obs":obs}));
         Some(run)
@@ -481,10 +509,45 @@ fn around(rng: &mut Rng, x: i64, top: i64) -> u64 {
 }
 
 pub fn random_run(rng: &mut Rng, run_no: u64, len: usize, out: &mut Out) {
-    let cfg = rand_cfg(rng);
+    let nfx = fixture_count("cw20") as u64;
+    let cfg = if nfx > 0 && rng.chance(1, 6) { json!({"fixture": rng.below(nfx)}) } else { rand_cfg(rng) };
     let Some(mut run) = Run::start(&cfg, run_no, out) else { return };
+    if cfg.get("fixture").is_some() && rng.chance(1, 2) {
+        // the upgrade itself: the current code is installed over the recorded state
+        run.step(&json!({"act":"migrate","by":"creator","args":{}}), out);
+    }
+    drive(&mut run, rng, len, out);
+}
+
+/// records states of the token as the current tree writes them (run on the unchanged tree by tools/mkfixtures.sh)
+pub fn make_fixtures(rng: &mut Rng, count: usize, len: usize, path: &str) {
+    let mut lines = String::new();
+    let mut sink = Out::create("/dev/null");
+    let mut k = 0;
+    while k < count {
+        let mut cfg = rand_cfg(rng);
+        cfg["legacy"] = json!(false);
+        let Some(mut run) = Run::start(&cfg, k as u64, &mut sink) else { continue };
+        drive(&mut run, rng, len, &mut sink);
+        let t = run.tok();
+        let fx = json!({"cfg": cfg, "now": run.w.now(), "names": names_of(&run.w), "raw": dump_raw(&run.w, &t), "obs": run.observe()});
+        if !run.sc.take_anomalies().is_empty() {
+            continue;
+        }
+        lines.push_str(&serde_json::to_string(&fx).unwrap());
+        lines.push('\n');
+        k += 1;
+    }
+    std::fs::write(path, lines).unwrap();
+}
+
+fn drive(run: &mut Run, rng: &mut Rng, len: usize, out: &mut Out) {
     let top: i64 = if run.sc.max_amt() > 0 { run.sc.max_amt() as i64 } else { 1 << 28 };
     if !run.migrated {
+        if rng.chance(1, 2) {
+            // the upgrade comes some blocks later: grants of the old deployment may have expired by then
+            run.step(&json!({"act":"advance","by":"env","args":{"dh":rng.range(0,6),"dt":rng.range(0,40)}}), out);
+        }
         run.step(&json!({"act":"migrate","by":"creator","args":{}}), out);
     }
     let mut obs = run.observe();
